@@ -156,11 +156,11 @@ def run(R):
             R.check('conn' in show(sc.origin(t['args'][0])) or term_contains(sc.origin(t['args'][0]), lambda x: is_call(x, name='serve_connection')), 'C13.R4', 'graceful_shutdown-on-conn', site(sc, bb), 'receiver = %s' % show(sc.origin(t['args'][0]))[:80])
         # the receiver is dropped only after the loop
         dr = [(bb, t) for bb, t in sc.calls(pat='mem::drop') if any('watch::Receiver' in g for g in t.get('ga', []))]
-        implicit = [bb for bb in sc.live_blocks() if sc.term(bb)['k'] == 'drop' and 'watch::Receiver' in sc.tystr(sc.term(bb)['ty']) and not sc.term(bb)['p'].get('pr') and sc.name_of(sc.term(bb)['p']['l']) == 'watcher']
+        implicit = [bb for bb in sc.live_blocks() if sc.term(bb)['k'] == 'drop' and 'watch::Receiver' in sc.tystr(sc.term(bb)['ty'])]
         alld = [bb for bb, t in dr] + implicit
         R.check(bool(alld), 'C13.R4', 'receiver-dropped-at-end', site(sc), 'drop sites of the task\'s receiver: explicit %d, scope-end %d' % (len(dr), len(implicit)))
-        for bb in alld:
-            R.check(ob not in sc.reachable(bb) and sc.dominates(ob, bb) or ob not in sc.reachable(bb), 'C13.R4', 'receiver-outlives-loop', site(sc, bb), 'the receiver is dropped only after the serve loop was left')
+        inloop = [bb for bb in alld if ob in sc.reachable(bb)]
+        R.check(not inloop, 'C13.R4', 'receiver-outlives-loop', site(sc, inloop[0]) if inloop else site(sc), 'the receiver is dropped only after the serve loop was left (drops inside the loop: %d)' % len(inloop))
         hs = sc.calls(pat='Builder', name='serve_connection')
         R.check(len(hs) == 1, 'C13.R4', 'hyper-serve_connection', site(sc), 'hyper serve_connection sites: %d' % len(hs))
         sp = tonic.body('transport::server::serve_connection')
